@@ -43,7 +43,6 @@ ASSUMPTIONS = ["each terminal (shape, pin class) belongs to one hyperedge (gener
                "route-end slack as stated in LEVEL_NOTE"]
 EXPLANATION = ("SPECFAIL messages start with the most specific failure kind present in the case; kinds the "
                "unmodified library is known to produce rank last, so a known defect never masks a new one.")
-WIP = True
 
 
 def plan(tier, seed, searching):
